@@ -21,6 +21,7 @@ def specStep (ttl : Nat → Nat) (s : SpecSt) : Ev → SpecSt
   | .exh _ _ => s
   | .nop _ => s
   | .err _ => s
+  | .dead _ _ _ => s
   | .rel _ kind id => ⟨erase s.store (kind, id), s.now, s.good⟩
   | .relo _ kind id => ⟨erase s.store (kind, id), s.now, s.good⟩
   | .rnw _ kind id => ⟨put s.store (kind, id) (expiry s.now (ttl kind)), s.now, s.good⟩
@@ -42,6 +43,7 @@ abbrev Held := List (Nat × Key)
 def heldStep (s : Held × Bool) : Ev → Held × Bool
   | .ok t kind id => ((t, (kind, id)) :: s.1, s.2)
   | .relo t kind id => (s.1.erase (t, (kind, id)), s.2 && decide ((t, (kind, id)) ∈ s.1))
+  | .dead _ _ _ => (s.1, false)   -- a holder that is still running must have its heartbeat
   | _ => s
 
 def heldReplay (tr : List Ev) : Held × Bool := tr.foldl heldStep ([], true)
@@ -64,5 +66,12 @@ def elapsed : List Ev → Nat
   | .tick dt :: r => dt + elapsed r
   | _ :: r => elapsed r
 
+/-- The lease of `k` is kept up through `mid`: starting with `b` time units left, no tick lets the
+remaining time run out before the next renewal (`rnw`) of `k` refills it to `ttl`. -/
+def leaseOk (k : Key) (ttl : Nat) : Nat → List Ev → Bool
+  | _, [] => true
+  | b, .tick dt :: r => decide (dt < b) && leaseOk k ttl (b - dt) r
+  | b, .rnw _ kind id :: r => if (kind, id) = k then leaseOk k ttl ttl r else leaseOk k ttl b r
+  | b, _ :: r => leaseOk k ttl b r
 
 end Tunnox.C15
